@@ -1180,6 +1180,7 @@ type outcome struct {
 	hdr    string
 	status int
 	errs   string
+	url    string // request calls: the request URL afterwards (url.Modifier rewrites it)
 }
 
 func obsOutcome(h http.Header, status int, err error) outcome {
@@ -1277,6 +1278,7 @@ func runConc(r *vh.Run, c concCase) {
 				err := m.ModifyRequest(req)
 				t1 := atomic.AddInt64(&seq, 1)
 				qo := obsOutcome(req.Header, 0, err)
+				qo.url = req.URL.String()
 				calls[g] = append(calls[g], call{t0: t0, t1: t1, msg: j, kind: cfgx.Req, got: qo, g: g})
 				rs := msgs[j].Response(req)
 				t0 = atomic.AddInt64(&seq, 1)
@@ -1359,7 +1361,7 @@ func runConc(r *vh.Run, c concCase) {
 		st := cfgx.NewState(msgs[msg])
 		ref := &cfgx.Ref{St: st}
 		errs := ref.Run(cfgs[cfg], cfgx.Req)
-		o := outcome{hdr: cfgx.HeaderString(st.ReqH), errs: strings.Join(sortedCopy(errs), "\n")}
+		o := outcome{hdr: cfgx.HeaderString(st.ReqH), errs: strings.Join(sortedCopy(errs), "\n"), url: st.URL()}
 		reqExp[k], reqState[k] = o, st
 		return o, st
 	}
@@ -1397,7 +1399,7 @@ func runConc(r *vh.Run, c concCase) {
 					if st0 == nil {
 						continue // request phase already reported
 					}
-					k := key{cfg, cl.msg, cl.prev.hdr}
+					k := key{cfg, cl.msg, cl.prev.hdr + "|" + cl.prev.url}
 					var have bool
 					if want, have = resExp[k]; !have {
 						st := cloneState(st0)
@@ -1479,7 +1481,7 @@ func runCPost(r *vh.Run, c cpostCase) {
 			st := cfgx.NewState(msg)
 			ref := &cfgx.Ref{St: st}
 			qe := ref.Run(t, cfgx.Req)
-			qo := outcome{hdr: cfgx.HeaderString(st.ReqH), errs: strings.Join(sortedCopy(qe), "\n")}
+			qo := outcome{hdr: cfgx.HeaderString(st.ReqH), errs: strings.Join(sortedCopy(qe), "\n"), url: st.URL()}
 			nq := len(st.ReqH[cfgx.TraceHeader])
 			ref = &cfgx.Ref{St: st}
 			se := ref.Run(t, cfgx.Res)
@@ -1527,6 +1529,7 @@ func runCPost(r *vh.Run, c cpostCase) {
 		remove := withContext(req, round)
 		qerr := m.ModifyRequest(req)
 		qo := obsOutcome(req.Header, 0, qerr)
+		qo.url = req.URL.String()
 		rs := msg.Response(req)
 		serr := m.ModifyResponse(rs)
 		remove()
